@@ -27,6 +27,8 @@ class Obligation:
 
 
 def jsonable(x):
+    if hasattr(x, "__conc__"):
+        return jsonable(x.__conc__())
     if isinstance(x, float):
         if math.isnan(x) or math.isinf(x):
             return repr(x)
